@@ -28,7 +28,11 @@ ASSUMPTIONS = [
     "probability per case below 1 (measured on seeded defect C02_3: 1-2 violating shards per run at every seed tried)",
     "fuel limit = 20 000 + 40 000 library calls per block (measured: a successful write costs about 1 050 calls per block, 8 415 for 8 graded blocks; margin >= 40x)",
     "order-independence cell uses chops that state their count (count, count+ratio, count+size, multi-section), so the "
-    "family count does not depend on floating-point rounding of averaged edge lengths",
+    "family count does not depend on floating-point rounding of averaged edge lengths; the curved-size cell derives the "
+    "count from a cell size on the chopped block's own four edges (one of them a shared arc), which is independent of "
+    "insertion order and numbering except on the measure-zero set where length/size is a whole number",
+    "history cell: chops of an operation are edited with Operation.unchop / chop between assemblies; Mesh.clear() and "
+    "Mesh.backport() are the documented ways to re-assemble",
 ]
 
 _picks = st.lists(st.integers(0, 719), min_size=1, max_size=6)
@@ -532,6 +536,197 @@ def check_determinism(case, ctx: Ctx) -> None:
     ctx.label("outcome:" + (outs[0][0] if outs[0][0] == "ok" else outs[0][1]))
 
 
+# --------------------------------------------------------------------------------------------------
+# 6  scripts that assemble more than once (clear / backport between writes, chops edited in between)
+
+
+@st.composite
+def history_case(draw):
+    """A well-posed count-only model written, then 1-3 further rounds: optionally one family's chop is replaced by
+    another count or removed (or a removed one is put back), the mesh is cleared or back-ported (optionally after moving
+    a vertex, as an optimiser would), and written again.  A model of {family: count or None} says how each write ends."""
+    if draw(st.booleans()):
+        case = draw(chain_case())
+    else:
+        case = draw(lt.chopped_lattice("wellposed", min_cells=2))
+        case["picks"] = draw(_picks)
+    for ch in case["chops"]:
+        if isinstance(ch["args"], list):
+            ch["args"] = {"count": lt.chop_total_count(ch["args"])}
+    nf = len(case["chops"])
+    rounds = []
+    for _ in range(draw(st.integers(1, 3))):
+        edit = None
+        kind = draw(st.sampled_from(["none", "rechop", "rechop", "unchop"]))
+        if kind != "none":
+            edit = {"kind": kind, "chop": draw(st.integers(0, nf - 1)), "count": draw(st.integers(1, 12))}
+        rounds.append({"edit": edit, "between": draw(st.sampled_from(["clear", "backport", "backport-moved"])),
+                       "vertex": draw(st.integers(0, 63)), "shift": [draw(st.floats(-0.05, 0.05)) for _ in range(3)],
+                       "picks": draw(_picks)})
+    case["rounds"] = rounds
+    case["mode"] = "history"
+    return case
+
+
+def check_history(case, ctx: Ctx) -> None:
+    import numpy as np
+
+    built = lt.build(case)
+    facts = facts_of(case)
+    mesh = built.mesh
+    fams, _ = lt.lattice_families(case)
+    fam_of = {m: fi for fi, fam in enumerate(fams) for m in fam}
+    # model: family -> count (None = no chop); one chop per family by construction
+    holder = {}
+    model = {}
+    for ap in built.applied:
+        fi = fam_of[(ap["cell"], ap["gdir"])]
+        holder[fi] = ap
+        model[fi] = lt.chop_total_count(ap["kwargs"])
+    path = lt.write_path("history_blockMeshDict")
+
+    def write_and_judge(step: str, picks) -> None:
+        if os.path.exists(path):
+            os.remove(path)
+        if not mesh.is_assembled:
+            mesh.assemble()
+        schedule.inject(mesh, picks)
+        want_ok = all(v is not None for v in model.values())
+        try:
+            fuel.run(lambda: mesh.write(path), fuel_limit(len(built.ops)))
+        except fuel.OutOfFuel:
+            raise Violation("non-termination", f"{step}: write did not finish within the fuel limit", step=step, **facts) from None
+        except UndefinedGradingsError as ex:
+            if want_ok:
+                raise Violation("wellposed-rejected", f"{step}: every family has a chop, write raised {type(ex).__name__}: {ex}",
+                                error=type(ex).__name__, step=step, **facts) from None
+            if os.path.exists(path):
+                raise Violation("partial-file", f"{step}: failed write left a file behind", step=step, **facts) from None
+            ctx.label("round-undefined")
+            return
+        except Exception as ex:  # noqa: BLE001
+            raise Violation("wellposed-rejected" if want_ok else "under-wrong-error",
+                            f"{step}: write raised {type(ex).__name__}: {ex}", error=type(ex).__name__, step=step, **facts) from None
+        if not want_ok:
+            raise Violation("under-written", f"{step}: a family whose only chop was removed was written", step=step, **facts)
+        with open(path) as f:
+            text = f.read()
+        try:
+            bmd = lt.parse(text)
+        except FoamParseError as ex:
+            raise Violation("unparsable", f"{step}: {ex}", step=step, **facts) from None
+        if len(bmd.blocks) != len(built.ops):
+            raise Violation("block-count", f"{step}: {len(bmd.blocks)} hex entries for {len(built.ops)} operations", step=step, **facts)
+        for oi, cell in enumerate(built.cells):
+            for la in range(3):
+                fi = fam_of[(cell, built.axes[oi][la][0])]
+                got = bmd.blocks[oi].counts[la]
+                if got != model[fi]:
+                    raise Violation("family-count-not-propagated",
+                                    f"{step}: op {oi} local axis {la} (cell {cell}) has {got}, its family's chop says {model[fi]}",
+                                    step=step, **facts)
+
+    write_and_judge("first write", case["picks"])
+    for ri, rnd in enumerate(case["rounds"]):
+        step = f"round {ri + 1} ({rnd['between']}"
+        edit = rnd["edit"]
+        if edit is not None:
+            ap = holder[sorted(holder)[edit["chop"] % len(holder)]]
+            fi = fam_of[(ap["cell"], ap["gdir"])]
+            op = built.ops[ap["op"]]
+            op.unchop(ap["axis"])
+            if edit["kind"] == "rechop":
+                op.chop(ap["axis"], count=edit["count"])
+                model[fi] = edit["count"]
+            else:
+                model[fi] = None
+            step += ", " + edit["kind"]
+            ctx.label("edit:" + edit["kind"])
+        step += ")"
+        if rnd["between"] == "clear":
+            mesh.clear()
+        else:
+            if not mesh.is_assembled:
+                mesh.assemble()
+            if rnd["between"] == "backport-moved":
+                v = mesh.vertices[rnd["vertex"] % len(mesh.vertices)]
+                scale = min(min(w) for w in case["widths"])
+                v.move_to(v.position + np.array(rnd["shift"]) * scale)
+            mesh.backport()
+        ctx.label("between:" + rnd["between"])
+        write_and_judge(step, rnd["picks"])
+    ctx.nt(len(built.ops) >= 2)
+    ctx.label(f"rounds={len(case['rounds'])}")
+
+
+# --------------------------------------------------------------------------------------------------
+# 7  order independence when the count is derived from a cell size on curved shared edges
+
+
+@st.composite
+def curved_order_case(draw):
+    """A family whose only chop names a cell size (the count follows from the edge lengths of the chopped block), with a
+    circular arc on an edge of that direction which the chopped block shares with another block - and which either of
+    them may declare.  3 further (insertion order, numbering, schedule) variants: same counts everywhere."""
+    case = draw(lt.lattice(min_cells=2, max_cells=6, jitter="maybe"))
+    case.pop("offset", None)
+    gdir = draw(st.integers(0, 2))
+    shared = lt.shared_edges(case, gdir) or lt.shared_edges(case)
+    if not shared:
+        return None
+    n1, n2, cells = draw(st.sampled_from(shared))
+    dims = case["dims"]
+    nodes0 = lt.cell_nodes(dims, cells[0])
+    from vf.refmodel import HEX_EDGES_BY_AXIS
+
+    gdir = [ax for ax in range(3) for i, j in HEX_EDGES_BY_AXIS[ax] if {nodes0[i], nodes0[j]} == {n1, n2}][0]
+    owner = draw(st.sampled_from(cells))
+    others = [c for c in cells if c != owner]
+    chopped = draw(st.sampled_from(others)) if draw(st.integers(0, 3)) > 0 else draw(st.sampled_from(cells))
+    case["arcs_request"] = {"nodes": [n1, n2] if draw(st.booleans()) else [n2, n1], "owner_cell": owner,
+                            "frac": draw(st.floats(0.15, 0.3)) * draw(st.sampled_from([1, -1])),
+                            "helper": draw(st.sampled_from([[1.0, 0.3, 0.2], [0.2, 1.0, 0.3], [0.3, 0.2, 1.0]]))}
+    fams, _ = lt.lattice_families(case)
+    chops = []
+    for fam in fams:
+        if (chopped, gdir) in fam:
+            key = draw(st.sampled_from(["start_size_frac", "end_size_frac"]))
+            chops.append({"cell": chopped, "gdir": gdir, "args": {
+                key: draw(st.floats(0.02, 0.12)), "c2c_expansion": draw(st.sampled_from([1.0, 1.0, 1.05, 0.95])),
+                "preserve": draw(st.sampled_from(["c2c_expansion", "start_size", "end_size"]))}})
+        else:
+            c, d = draw(st.sampled_from(fam))
+            chops.append({"cell": c, "gdir": d, "args": {"count": draw(st.integers(1, 6))}})
+    case["chops"] = chops
+    case["mode"] = "curved-order"
+    k = len(case["cells"])
+    case["variants"] = [{"perm": draw(st.permutations(list(range(k)))), "orient": [draw(st.integers(0, 23)) for _ in range(k)],
+                         "picks": draw(_picks)} for _ in range(3)]
+    case["picks"] = draw(_picks)
+    return case
+
+
+def check_curved_order(case, ctx: Ctx) -> None:
+    import numpy as np
+
+    rq = case["arcs_request"]
+    pos = lt.node_positions(case)
+    n1, n2 = rq["nodes"]
+    chord = pos[n2] - pos[n1]
+    perp = np.cross(chord, np.array(rq["helper"]))
+    if np.linalg.norm(perp) < 0.1 * np.linalg.norm(chord):
+        perp = np.cross(chord, np.array(rq["helper"])[::-1])
+    perp = perp / np.linalg.norm(perp)
+    case = dict(case)
+    case["arcs"] = [{"nodes": [n1, n2], "bulge": (perp * rq["frac"] * np.linalg.norm(chord)).tolist(), "owner": 0,
+                     "owner_cell": rq["owner_cell"]}]
+    check_order(case, ctx)
+    order = {c: i for i, c in enumerate(case["cells"])}
+    sized = [ch for ch in case["chops"] if "count" not in ch["args"]][0]
+    ctx.label("arc-declared-by-later-block" if order[rq["owner_cell"]] > order[sized["cell"]] else
+              ("arc-declared-by-chopped-block" if rq["owner_cell"] == sized["cell"] else "arc-declared-by-earlier-block"))
+
+
 # the 4-box model of DESIGN.md appendix A (F2): A(0,0) D(2,0) B(1,0) C(1,1) inserted in that order, A and D chopped in z;
 # all 6 orders of the 3-element neighbour set of C's z direction are enumerated
 _LIVELOCK = [
@@ -564,6 +759,12 @@ CELLS = [
     Cell("C02/order-independence/two-sources", order_two_sources_case(), check_order, 80, 3000,
          "a family chopped at both ends of a row with the same count and different expansions, under 4 (insertion "
          "order, numbering, schedule) triples: same outcome class, same counts per (cell, direction)"),
+    Cell("C02/order-independence/curved-size", curved_order_case().filter(lambda c: c is not None), check_curved_order, 120, 4000,
+         "a family chopped by cell size on a block that shares a circular-arc edge with another block; the arc is declared "
+         "by a drawn one of the blocks that share it; 4 (insertion order, numbering, schedule) triples: same counts"),
+    Cell("C02/history", history_case(), check_history, 200, 6000,
+         "write, then 1-3 rounds of (replace / remove a family's chop) + clear / backport (optionally after moving a "
+         "vertex) + write: each write ends as the current chops say (counts per family, or UndefinedGradingsError, no file)"),
     Cell("C02/under-specified", under_case(), check_under, 150, 6000,
          "one family without chop: UndefinedGradingsError within fuel; no file left / existing file untouched"),
     Cell("C02/determinism/uniform", any_case(False), check_determinism, 120, 5000,
